@@ -206,6 +206,18 @@ class LinBinding:
                             return
                 # second, independent oracle: numpy.linalg.solve on the raw history of the specification state
                 self.check_linalg(rep, state, rows, X, arms, skey, label, tol)
+                # "for every number of query contexts": now and then the same rows repeated up to 1500 contexts
+                if rep.stats["queries"] % 25 == 1:
+                    n = 1500 if rep.stats["queries"] % 50 == 1 else 1025
+                    big = [[float(v) for v in X[i % m]] for i in range(n)]
+                    many = copy.deepcopy(twin).predict_expectations(big)
+                    for i in range(n):
+                        for arm in arms:
+                            if not terms.close(float(many[i][arm]), float(rows[i % m][arm]), tol, tol):
+                                rep.report("result.manyrows", "a batch of %d contexts: row %d (same context as row %d of the "
+                                           "%d-row batch) arm %r gives %r instead of %r"
+                                           % (n, i + 1, i % m + 1, m, arm, many[i][arm], rows[i % m][arm]), skey, label)
+                                return
         else:
             for arm in rows:
                 if arm not in arms:
